@@ -829,6 +829,53 @@ Section D.
         destruct (d_feat O d' k) as [l1|], (d_feat O d k) as [l2|]; cbn in Fq; try contradiction; [|reflexivity].
         induction Fq as [|a b l1 l2 [Ek [Ec _]] _ IH]; [reflexivity|]. cbn [map]. rewrite Ek, Ec, IH. reflexivity.
     Qed.
+
+    (* ---- observations: one row per (point3d_id, keypoints_type); every row comes back, whatever other rows share
+            its point id *)
+    Lemma nodup_key_unique k (l : table) (a b : row) : keys_nodup O k l = true ->
+      In a l -> In b l -> key_eqb O k a b = true -> a = b.
+    Proof.
+      unfold keys_nodup. induction l as [|x l IH]; cbn [nodup_by In]; [contradiction|].
+      rewrite andb_true_iff, negb_true_iff. intros [NX NL] Ia Ib E.
+      assert (NE : forall y, In y l -> key_eqb O k x y = false).
+      { intros y Iy. destruct (key_eqb O k x y) eqn:EK; [|reflexivity].
+        assert (existsb (key_eqb O k x) l = true) by (apply existsb_exists; exists y; split; assumption). congruence. }
+      destruct Ia as [<-|Ia], Ib as [<-|Ib].
+      - reflexivity.
+      - rewrite (NE b Ib) in E. discriminate.
+      - assert (E' : key_eqb O k x a = true) by (apply (key_eqb_eq O OK); apply (key_eqb_eq O OK) in E; congruence).
+        rewrite (NE a Ia) in E'. discriminate.
+      - exact (IH NL Ia Ib E).
+    Qed.
+
+    Lemma find_key_perm k (q : row) (l l' : table) : keys_nodup O k l = true -> Permutation l' l ->
+      List.find (fun r => key_eqb O k r q) l' = List.find (fun r => key_eqb O k r q) l.
+    Proof.
+      intros N P.
+      destruct (List.find (fun r => key_eqb O k r q) l') as [a|] eqn:E1.
+      - apply find_some in E1. destruct E1 as [Ia Pa]. apply (Permutation_in _ P) in Ia.
+        destruct (List.find (fun r => key_eqb O k r q) l) as [b|] eqn:E2.
+        + apply find_some in E2. destruct E2 as [Ib Pb]. f_equal. apply (nodup_key_unique k l a b N Ia Ib).
+          cbn beta in Pa, Pb. apply (key_eqb_eq O OK) in Pa. apply (key_eqb_eq O OK) in Pb. apply (key_eqb_eq O OK). congruence.
+        + pose proof (find_none _ _ E2 a Ia) as F. cbn in F. congruence.
+      - destruct (List.find (fun r => key_eqb O k r q) l) as [b|] eqn:E2; [|reflexivity].
+        apply find_some in E2. destruct E2 as [Ib Pb]. apply (Permutation_in _ (Permutation_sym P)) in Ib.
+        pose proof (find_none _ _ E1 b Ib) as F. cbn in F. congruence.
+    Qed.
+
+    Theorem observations_kept d' (rows : table) : load O (save O d) = Ok d' -> d_tab O d FObs = Some rows ->
+      exists rows', d_tab O d' FObs = Some rows' /\ Permutation rows' rows /\
+                    forall pid kt, obs_of O pid kt rows' = obs_of O pid kt rows.
+    Proof.
+      intros E ER. destruct load_save as [d'' [E' [T _]]]. rewrite E in E'. injection E' as <-.
+      destruct wf_parts as [_ [TW _]]. destruct (table_wf_inv _ _ (TW _ _ ER)) as [HW HN]. cbn [fk_of] in HW, HN.
+      exists (sort_rows O fk_obs rows). split; [|split].
+      - rewrite T. cbn [canon d_tab]. rewrite ER. cbn [option_map fk_of]. rewrite (obs_canon_table rows HW). reflexivity.
+      - apply sort_rows_perm.
+      - intros pid kt. unfold obs_of.
+        rewrite (find_key_perm 2 [pid; CStr kt] rows (sort_rows O fk_obs rows) HN (sort_rows_perm O fk_obs rows)).
+        reflexivity.
+    Qed.
   End Load.
 
 End D.
